@@ -9,6 +9,7 @@ import (
 	"fmt"
 	"go/ast"
 	"go/format"
+	"go/importer"
 	"go/parser"
 	"go/token"
 	"go/types"
@@ -17,6 +18,7 @@ import (
 	"sort"
 	"strconv"
 	"strings"
+	"sync"
 )
 
 const modPath = "github.com/z7zmey/php-parser"
@@ -997,10 +999,80 @@ func rewriteCmd(fset *token.FileSet, f *ast.File, rel string, in *inst) {
 		}
 		return true
 	})
+	// The program's package-level variables live as long as the process, and a
+	// real invocation starts with fresh ones. The simulator runs the program many
+	// times in one process (the whole tree, then every file alone), so each file
+	// of the program registers a function that gives its package-level variables
+	// their initial values again (initialisers re-evaluated in source order, init
+	// functions re-run); the harness calls it before every invocation.
+	var resets []ast.Stmt
+	nInit := 0
+	for _, d := range f.Decls {
+		switch x := d.(type) {
+		case *ast.GenDecl:
+			if x.Tok != token.VAR {
+				continue
+			}
+			for _, sp := range x.Specs {
+				vs := sp.(*ast.ValueSpec)
+				var lhs []ast.Expr
+				named := false
+				for _, nm := range vs.Names {
+					lhs = append(lhs, ast.NewIdent(nm.Name))
+					named = named || nm.Name != "_"
+				}
+				if !named {
+					continue
+				}
+				if len(vs.Values) > 0 {
+					resets = append(resets, &ast.AssignStmt{Lhs: lhs, Tok: token.ASSIGN, Rhs: vs.Values})
+					continue
+				}
+				if vs.Type == nil {
+					continue
+				}
+				for _, nm := range vs.Names {
+					if nm.Name == "_" {
+						continue
+					}
+					zero := &ast.StarExpr{X: &ast.CallExpr{Fun: ast.NewIdent("new"), Args: []ast.Expr{vs.Type}}}
+					resets = append(resets, &ast.AssignStmt{Lhs: []ast.Expr{ast.NewIdent(nm.Name)}, Tok: token.ASSIGN, Rhs: []ast.Expr{zero}})
+				}
+			}
+		case *ast.FuncDecl:
+			if x.Recv == nil && x.Name.Name == "init" && x.Type.Params.NumFields() == 0 {
+				nInit++
+				x.Name.Name = "zzinit" + strconv.Itoa(nInit) + "_" + sanitize(rel)
+				resets = append(resets, &ast.ExprStmt{X: &ast.CallExpr{Fun: ast.NewIdent(x.Name.Name)}})
+			}
+		}
+	}
+	if len(resets) > 0 {
+		usedOS = true
+		name := "zzreset_" + sanitize(rel)
+		f.Decls = append(f.Decls, &ast.FuncDecl{Name: ast.NewIdent(name), Type: &ast.FuncType{Params: &ast.FieldList{}}, Body: &ast.BlockStmt{List: resets}})
+		var initBody []ast.Stmt
+		for i := 1; i <= nInit; i++ {
+			initBody = append(initBody, &ast.ExprStmt{X: &ast.CallExpr{Fun: ast.NewIdent("zzinit" + strconv.Itoa(i) + "_" + sanitize(rel))}})
+		}
+		initBody = append(initBody, &ast.ExprStmt{X: &ast.CallExpr{Fun: &ast.SelectorExpr{X: ast.NewIdent("zzsimos"), Sel: ast.NewIdent("RegisterReset")}, Args: []ast.Expr{ast.NewIdent(name)}}})
+		f.Decls = append(f.Decls, &ast.FuncDecl{Name: ast.NewIdent("init"), Type: &ast.FuncType{Params: &ast.FieldList{}}, Body: &ast.BlockStmt{List: initBody}})
+		rep.CLI = append(rep.CLI, fmt.Sprintf("%s: %d package-level variables / init functions reset before every invocation", rel, len(resets)))
+	}
 	if usedOS {
 		imp := &ast.GenDecl{Tok: token.IMPORT, Specs: []ast.Spec{&ast.ImportSpec{Name: ast.NewIdent("zzsimos"), Path: &ast.BasicLit{Kind: token.STRING, Value: strconv.Quote(osPkg)}}}}
 		f.Decls = append([]ast.Decl{imp}, f.Decls...)
 	}
+}
+
+func sanitize(rel string) string {
+	b := []byte(rel)
+	for i, c := range b {
+		if !(c >= 'a' && c <= 'z' || c >= 'A' && c <= 'Z' || c >= '0' && c <= '9') {
+			b[i] = '_'
+		}
+	}
+	return string(b)
 }
 
 // fixUnusedImports blanks imports that the redirection left without a use.
@@ -1030,7 +1102,26 @@ func fixUnusedImports(f *ast.File) {
 
 type stubImporter struct{}
 
+// package time is type-checked from its source (once), so that the channels of
+// timers and tickers are known to be channels (`for range ticker.C`); every
+// other import is an empty stub.
+var (
+	realTimeOnce sync.Once
+	realTime     *types.Package
+)
+
 func (stubImporter) Import(path string) (*types.Package, error) {
+	if path == "time" || path == timePkg {
+		realTimeOnce.Do(func() {
+			defer func() { recover() }()
+			if p, err := importer.ForCompiler(token.NewFileSet(), "source", nil).Import("time"); err == nil {
+				realTime = p
+			}
+		})
+		if realTime != nil {
+			return realTime, nil
+		}
+	}
 	name := path
 	if k := strings.LastIndex(name, "/"); k >= 0 {
 		name = name[k+1:]
@@ -1048,6 +1139,11 @@ func (stubImporter) Import(path string) (*types.Package, error) {
 // file itself - parameters, locals, package variables - are recognised.
 func desugarChanRanges(fset *token.FileSet, f *ast.File, rel string) {
 	hasChan := false
+	for _, im := range f.Imports {
+		if im.Path.Value == `"time"` || im.Path.Value == strconv.Quote(timePkg) {
+			hasChan = true // timers and tickers carry channels
+		}
+	}
 	ast.Inspect(f, func(n ast.Node) bool {
 		if _, ok := n.(*ast.ChanType); ok {
 			hasChan = true
